@@ -291,6 +291,18 @@ func WorkerMain(t *testing.T, worldName string, world World) {
 				}
 			}
 			tries := envInt("VERIF_REPRO_TRIES", 1)
+			// In worlds exposed to runtime coins (select among ready cases) the same choice stream can fail
+			// in a neighbouring oracle of the same property: any violation of the property counts as a reproduction.
+			loose := os.Getenv("VERIF_SIG_LOOSE") != ""
+			same := func(v *Violation) bool {
+				if v == nil || isKnown(v) {
+					return false
+				}
+				if loose {
+					return v.Property == res.Violation.Property
+				}
+				return v.Signature() == sig
+			}
 			runOnce := func(cand []uint32, full bool) *RunResult {
 				rc := ReplayChoices(cand)
 				rc.Limit = len(cand)*2 + 2000
@@ -299,7 +311,7 @@ func WorkerMain(t *testing.T, worldName string, world World) {
 			test := func(cand []uint32) bool {
 				for k := 0; k < tries; k++ {
 					r := runOnce(cand, false)
-					if r.Violation != nil && r.Violation.Signature() == sig && !isKnown(r.Violation) {
+					if same(r.Violation) {
 						return true
 					}
 				}
@@ -312,18 +324,18 @@ func WorkerMain(t *testing.T, worldName string, world World) {
 			for _, cand := range [][]uint32{min, full} {
 				for k := 0; k < tries*5; k++ {
 					final = runOnce(cand, true)
-					if final.Violation != nil && final.Violation.Signature() == sig {
+					if same(final.Violation) {
 						break
 					}
 				}
-				if final.Violation != nil && final.Violation.Signature() == sig {
+				if same(final.Violation) {
 					min = cand
 					break
 				}
 			}
 			f := &Failure{RunIndex: i, Seed: seed, Violation: final.Violation, FullChoices: full, MinChoices: min,
 				ShrinkExecs: execs, LogHash: final.LogHash, Log: final.Log, Desc: final.Desc}
-			if final.Violation == nil {
+			if !same(final.Violation) {
 				f.Violation = res.Violation
 				rep.Harness = append(rep.Harness, fmt.Sprintf("run %d seed %d: violation %s did not reproduce from its own choice stream", i, seed, sig))
 			}
